@@ -341,6 +341,11 @@ where
     }
 }
 
+#[cfg(feature = "verif-hooks")]
+pub(crate) fn verif_consecutive_chunk_indices(delivery_infos: &[DeliveryInfo]) -> Vec<usize> {
+    consecutive_chunk_indices(delivery_infos)
+}
+
 fn consecutive_chunk_indices(delivery_infos: &[DeliveryInfo]) -> Vec<usize> {
     delivery_infos
         .windows(2)
